@@ -3,7 +3,7 @@
 Gen/ConstructTab.lean (import-free):
   * `cp1252Decode`      : for every byte n, the code point `bytes([n]).decode("windows-1252")` gives, or none
                           (the detour of `handle_charref`, bs4/builder/_htmlparser.py:244-257) — live codec;
-  * `intMaxStrDigits`   : `sys.get_int_max_str_digits()` (CPython's limit for `int(<decimal str>)`);
+  * `intMaxStrDigitsC06`   : `sys.get_int_max_str_digits()` (CPython's limit for `int(<decimal str>)`);
   * `maxUnicode`        : `sys.maxunicode` (`chr` range);
   * `urlPrefixes`, `fileExtensions`, `shellChars`, `heuristicsMaxLen` : the literals of `_markup_is_url`,
                           `_markup_resembles_filename` and of the guard in `BeautifulSoup.__init__`, read from the
@@ -231,7 +231,7 @@ def gen_construct():
     t += "/-! tables of the construction model (C06): CPython facts and literals/field sets read from the live bs4 -/\n"
     t += "namespace BS.Gen\n"
     t += chunked_def("cp1252Decode", "Option Nat", cp)
-    t += f"/-- sys.get_int_max_str_digits(); 0 = no limit -/\ndef intMaxStrDigits : Nat := {lim}\n"
+    t += f"/-- sys.get_int_max_str_digits(); 0 = no limit -/\ndef intMaxStrDigitsC06 : Nat := {lim}\n"
     t += f"def maxUnicode : Nat := {sys.maxunicode}\n"
     t += f"def urlPrefixes : List (List Nat) := [{', '.join(lean_nat_list(p) for p in lit['prefixes'])}]\n"
     t += f"def fileExtensions : List (List Nat) := [{', '.join(lean_nat_list(p) for p in lit['extensions'])}]\n"
